@@ -2,6 +2,7 @@ use crate::myc;
 use crate::{StatementData, Value};
 use std::collections::HashMap;
 use std::convert::TryFrom;
+use std::io;
 
 /// A `ParamParser` decodes query parameters included in a client's `EXECUTE` command given
 /// type information for the expected parameters.
@@ -59,23 +60,52 @@ pub struct ParamValue<'a> {
     pub coltype: myc::constants::ColumnType,
 }
 
-impl<'a> Iterator for Params<'a> {
-    type Item = ParamValue<'a>;
-    fn next(&mut self) -> Option<Self::Item> {
+fn malformed(what: &str) -> io::Error {
+    io::Error::new(
+        io::ErrorKind::InvalidData,
+        format!("malformed COM_STMT_EXECUTE parameters: {}", what),
+    )
+}
+
+impl<'a> ParamParser<'a> {
+    /// Decode all parameters once without handing them out, so that a malformed parameter block
+    /// is reported as an error before the shim starts iterating (the iterator cannot fail).
+    pub(crate) fn check(&self) -> io::Result<()> {
+        let mut bound_types = self.bound_types.clone();
+        let mut params = Params {
+            params: self.params,
+            input: self.bytes,
+            nullmap: None,
+            col: 0,
+            long_data: self.long_data,
+            bound_types: &mut bound_types,
+        };
+        while params.try_next()?.is_some() {}
+        Ok(())
+    }
+}
+
+impl<'a> Params<'a> {
+    fn try_next(&mut self) -> io::Result<Option<ParamValue<'a>>> {
         if self.nullmap.is_none() {
             let nullmap_len = (self.params as usize + 7) / 8;
+            if self.input.len() < nullmap_len {
+                return Err(malformed("NULL bitmap is truncated"));
+            }
             let (nullmap, rest) = self.input.split_at(nullmap_len);
             self.nullmap = Some(nullmap);
             self.input = rest;
 
             if !rest.is_empty() && rest[0] != 0x00 {
+                if rest.len() - 1 < 2 * self.params as usize {
+                    return Err(malformed("type block is truncated"));
+                }
                 let (typmap, rest) = rest[1..].split_at(2 * self.params as usize);
                 self.bound_types.clear();
                 for i in 0..self.params as usize {
                     self.bound_types.push((
-                        myc::constants::ColumnType::try_from(typmap[2 * i]).unwrap_or_else(|e| {
-                            panic!("bad column type 0x{:x}: {}", typmap[2 * i], e)
-                        }),
+                        myc::constants::ColumnType::try_from(typmap[2 * i])
+                            .map_err(|_| malformed("unknown parameter type"))?,
                         (typmap[2 * i + 1] & 128) != 0,
                     ));
                 }
@@ -88,9 +118,12 @@ impl<'a> Iterator for Params<'a> {
         }
 
         if self.col >= self.params {
-            return None;
+            return Ok(None);
         }
-        let pt = &self.bound_types[self.col as usize];
+        let pt = *self
+            .bound_types
+            .get(self.col as usize)
+            .ok_or_else(|| malformed("no types have been bound for this statement"))?;
 
         // https://web.archive.org/web/20170404144156/https://dev.mysql.com/doc/internals/en/null-bitmap.html
         // NULL-bitmap-byte = ((field-pos + offset) / 8)
@@ -98,14 +131,14 @@ impl<'a> Iterator for Params<'a> {
         if let Some(nullmap) = self.nullmap {
             let byte = self.col as usize / 8;
             if byte >= nullmap.len() {
-                return None;
+                return Ok(None);
             }
             if (nullmap[byte] & 1u8 << (self.col % 8)) != 0 {
                 self.col += 1;
-                return Some(ParamValue {
+                return Ok(Some(ParamValue {
                     value: Value::null(),
                     coltype: pt.0,
-                });
+                }));
             }
         } else {
             unreachable!();
@@ -114,12 +147,20 @@ impl<'a> Iterator for Params<'a> {
         let v = if let Some(data) = self.long_data.get(&self.col) {
             Value::bytes(&data[..])
         } else {
-            Value::parse_from(&mut self.input, pt.0, pt.1).unwrap()
+            Value::parse_from(&mut self.input, pt.0, pt.1)?
         };
         self.col += 1;
-        Some(ParamValue {
+        Ok(Some(ParamValue {
             value: v,
             coltype: pt.0,
-        })
+        }))
+    }
+}
+
+impl<'a> Iterator for Params<'a> {
+    type Item = ParamValue<'a>;
+    fn next(&mut self) -> Option<Self::Item> {
+        // the block was validated by ParamParser::check before the shim was called
+        self.try_next().unwrap()
     }
 }
